@@ -132,8 +132,9 @@ def run(ctx):
     items = [(n, v, '%s-%d' % (n, ctx.seed)) for n, v in pairs]
     reqs, meta = [], []
     ntraces = 0
-    for i in range(0, len(items), 30):
-        for out in pmap(work, items[i:i + 30]):
+    B = 12      # the texts of one batch are all in memory at once (thirty formats, bare and headed, several descriptions per basis)
+    for i in range(0, len(items), B):
+        for out in pmap(work, items[i:i + B]):
             if out['error']:
                 R.count('skip:' + out['error'])
                 continue
